@@ -717,3 +717,4 @@ PROPS["C09"]["manifest"]["text"] += " TRACE: recorded event lists of real hedged
 PROPS["C09"]["manifest"]["technique"] += " + trace acceptance against the interleaving model (acceptor proved sound and complete)"
 PROPS["C09"]["required_theorems"] += ["Failsafe.Props.C09." + t for t in ["accepted_states_inv", "returned_value_was_produced", "hedge_event_needs_slot", "readings_after_return"]]
 PROPS["C04"]["required_theorems"] += ["Failsafe.Props.C04." + t for t in ["kernel_admission", "kernel_records_once", "model_breaker_layer_is_the_codes"]]
+PROPS["C03"]["required_theorems"] += ["Failsafe.Props.C03.composition_clock_monotone", "Failsafe.Props.C03.layer_clock_monotone"]
